@@ -63,6 +63,10 @@ func makeReplay(rn *runner, v *variant, f foundViolation, shrink bool, tier stri
 		oc := rn.runPlanX(v, p.Prop, p.Seed, p.Index, "", p, sig == "hang")
 		return findSig(oc, sig)
 	}
+	if f.V.Oracle == "isolation" || f.V.Oracle == "cold_nondeterminism" {
+		// the reproduction runs compare with cold references computed afresh
+		rn.forgetCold(v, f.Plan)
+	}
 	// stream violations carry their concrete case
 	if f.V.Case != nil {
 		c := clonePlan(f.Plan)
@@ -135,28 +139,60 @@ func shrinkCandidates(p *plan.Plan, v plan.Violation) []*plan.Plan {
 				add(func(q *plan.Plan) bool { q.Stream[0].Pad = nil; return true })
 				add(func(q *plan.Plan) bool { q.Stream[0].Pad = q.Stream[0].Pad[:len(f.Pad)/2]; return true })
 			}
+			// (candidates are whole clones of the plan: for long lists of parts or
+			// deliveries only chunks are dropped, or the clones of a multi-megabyte
+			// document times thousands of list entries exhaust the memory)
+			chunks := func(n int) [][2]int {
+				var out [][2]int
+				if n <= 24 {
+					for i := 0; i < n; i++ {
+						out = append(out, [2]int{i, i + 1})
+					}
+					return out
+				}
+				for _, k := range []int{2, 8} {
+					for j := 0; j < k; j++ {
+						out = append(out, [2]int{j * n / k, (j + 1) * n / k})
+					}
+				}
+				return out
+			}
 			if len(f.Parts) > 1 {
-				for i := range f.Parts {
-					i := i
+				for _, c := range chunks(len(f.Parts)) {
+					a, b := c[0], c[1]
+					if b-a >= len(f.Parts) {
+						continue
+					}
 					add(func(q *plan.Plan) bool {
 						s := &q.Stream[0]
-						s.Parts = append(s.Parts[:i:i], s.Parts[i+1:]...)
-						if i < len(s.Seps) {
-							s.Seps = append(s.Seps[:i:i], s.Seps[i+1:]...)
+						s.Parts = append(s.Parts[:a:a], s.Parts[b:]...)
+						if a < len(s.Seps) {
+							hi := b
+							if hi > len(s.Seps) {
+								hi = len(s.Seps)
+							}
+							s.Seps = append(s.Seps[:a:a], s.Seps[hi:]...)
 						}
 						return true
 					})
 				}
 			}
-			for i := range f.Del {
-				i := i
+			for _, c := range chunks(len(f.Del)) {
+				a, b := c[0], c[1]
 				add(func(q *plan.Plan) bool {
 					s := &q.Stream[0]
-					if i+1 < len(s.Del) && s.Del[i].Err == "" {
-						// merge with the next delivery
-						s.Del[i+1].N += s.Del[i].N
+					sum := 0
+					for i := a; i < b; i++ {
+						if s.Del[i].Err != "" {
+							return false // keep the fault
+						}
+						sum += s.Del[i].N
 					}
-					s.Del = append(s.Del[:i:i], s.Del[i+1:]...)
+					if b < len(s.Del) {
+						// merge with the next delivery
+						s.Del[b].N += sum
+					}
+					s.Del = append(s.Del[:a:a], s.Del[b:]...)
 					return true
 				})
 			}
@@ -252,8 +288,14 @@ func shrinkCandidates(p *plan.Plan, v plan.Violation) []*plan.Plan {
 	case "typesweep":
 		if p.Sweep != nil && len(p.Sweep.OnlyName) > 1 {
 			n := len(p.Sweep.OnlyName)
-			add(func(q *plan.Plan) bool { q.Sweep.OnlyName = append([]string(nil), q.Sweep.OnlyName[n/2:]...); return true })
-			add(func(q *plan.Plan) bool { q.Sweep.OnlyName = append([]string(nil), q.Sweep.OnlyName[:n/2]...); return true })
+			add(func(q *plan.Plan) bool {
+				q.Sweep.OnlyName = append([]string(nil), q.Sweep.OnlyName[n/2:]...)
+				return true
+			})
+			add(func(q *plan.Plan) bool {
+				q.Sweep.OnlyName = append([]string(nil), q.Sweep.OnlyName[:n/2]...)
+				return true
+			})
 			if n <= 12 {
 				for i := 0; i < n; i++ {
 					i := i
